@@ -267,6 +267,25 @@ def run(ctx):
                  for rec in mf.paths)
         ctx.ob('phase-reset', trans, ok, f'{trans} must clear the tracked stack and keep memory and claims',
                py.where(w.stateful.module, mf.node))
+    # every interpreter class that refines a phase change passes it on: the phase field lives in the root class, the cleared stack in
+    # the tracker, the switched stream in the IO layer - an override that does not call super().<same>() leaves one of them behind
+    for mi_ in py.modules.values():
+        for c_ in mi_.classes.values():
+            chain_ = py.mro(c_)
+            if not any(x.name == 'Interpreter' for x in chain_) or c_.name == 'Interpreter':
+                continue
+            for trans in ('into_claim_phase', 'into_proof_phase'):
+                if trans not in c_.methods:
+                    continue
+                mf = PM.level_facts(py, c_, trans)
+                if mf is None:
+                    continue
+                fwd = 'sub_interpreter' in ast.unparse(c_.methods[trans])
+                ok = bool(mf.paths) and all(len([s_ for s_ in rec['supers'] if s_[0] == trans]) == 1
+                                            or (fwd and any(sc[0] == trans for sc in rec['subcalls'])) for rec in mf.paths)
+                ctx.ob('phase-reset', f'{c_.name}.{trans}/passes-on', ok,
+                       f'{c_.name}.{trans} must call super().{trans}() exactly once on every path (the phase, the tracked stack and the '
+                       f'output stream are switched by different classes of the chain)', py.where(c_.module, mf.node))
     memory_and_load(ctx, py, w, arms, mem_py, mem_rs)
     # the terms the tracker holds are the terms the machine builds: slot / operand wiring of every call (shared with C02)
     from . import c02, c05
@@ -274,6 +293,24 @@ def run(ctx):
     dec = c05.decode_table(r)
     for meth in PM.INTERP_METHODS:
         c02.method_row(ctx, w, meth, arms, py_ops, dec)
+    # Pop / Save / Publish act on the TOP of the machine's stack and carry no operand: the generator names the term it means, and
+    # the tracker is what ties that name to the top - on every accepting path the term parameter is asserted equal to stack[-1]
+    # (docs/proof-language.md: Pop, Save, Publish). Without it the generator's view and the machine's state part company silently.
+    for meth in ('pop', 'save', 'publish_proof', 'publish_axiom', 'publish_claim'):
+        mf = PM.level_facts(py, w.stateful, meth)
+        ctx.require(mf is not None and mf.paths, f'anchor vanished: StatefulInterpreter.{meth}')
+        tparams = [q for q in mf.params if q != 'id']
+        ctx.require(len(tparams) == 1, f'StatefulInterpreter.{meth}: expected one term parameter')
+        want = {(('slot', 1), ('param', tparams[0])), (('param', tparams[0]), ('slot', 1))}
+        ok = all(any((a, b) in want for a, b in rec['binds']) for rec in mf.paths)
+        ctx.ob('effect', f'{meth}/term-is-the-top', ok,
+               f'StatefulInterpreter.{meth} must accept only when `{tparams[0]}` equals the top of the tracked stack (the instruction written '
+               f'for it has no operand and acts on the machine\'s top): otherwise the generator goes on with another term than the machine',
+               py.where(w.stateful.module, mf.node))
+    # "modulo the numbering of symbols": the wiring rows identify a symbol with the number written for it, which is sound only if
+    # the numbering is ONE injective table for the three streams (shared with C03)
+    from . import c03
+    c03.symbol_table(ctx, py)
     ctx.floor('effect', 24)
     ctx.floor('phase-reset', 2)
     claim_queue(ctx, py, w)
